@@ -201,7 +201,7 @@ void h_filter_index_key(void) {
   _Bool av = DeserializationOption__Filter__allowValue(&f);
   _Bool ao = DeserializationOption__Filter__allowObject(&f);
   char *key = g_key;
-  Filter r = DeserializationOption__Filter__op_index_char_p(&f, &key);
+  Filter r = DeserializationOption__Filter__op_index_constchar_p(&f, &key);
   int k = spec_kind(node);
   _Bool key_is_star = g_key[0] == '*' && g_key[1] == 0;
   struct VariantData *m = key_is_star ? g_star_ret : g_key_ret;       /* the member named by the key */
@@ -281,7 +281,7 @@ void h_filter_true_identity(void) {
   Filter r; struct AllowAllFilter rall;
   if (which == 0) { r = DeserializationOption__Filter__op_index_uint(&f, &i32); rall = AllowAllFilter__op_index_uint(&all, &i32); }
   else if (which == 1) { r = DeserializationOption__Filter__op_index_ulong(&f, &i64); rall = AllowAllFilter__op_index_ulong(&all, &i64); }
-  else { r = DeserializationOption__Filter__op_index_char_p(&f, &key); rall = AllowAllFilter__op_index_char_p(&all, &key); }
+  else { r = DeserializationOption__Filter__op_index_constchar_p(&f, &key); rall = AllowAllFilter__op_index_constchar_p(&all, &key); }
   COVER(which == 0); COVER(which == 1); COVER(which == 2);
   CHECK(AllowAllFilter__allow(&all) && AllowAllFilter__allowArray(&all) && AllowAllFilter__allowObject(&all) && AllowAllFilter__allowValue(&all),
         "AllowAllFilter answers true everywhere");
@@ -383,7 +383,7 @@ void h_fwalk_key(void) {
   Filter f; f.variant_.data_ = SLOT(0); f.variant_.resources_ = &g_rm;
   _Bool av = DeserializationOption__Filter__allowValue(&f), ao = DeserializationOption__Filter__allowObject(&f);
   char *key = g_key;
-  Filter r = DeserializationOption__Filter__op_index_char_p(&f, &key);
+  Filter r = DeserializationOption__Filter__op_index_constchar_p(&f, &key);
   struct VariantData *m = spec_member(g_key), *star = spec_member(g_star);
   struct VariantData *expect = av ? SLOT(0) : (NULL_VALUED(m) ? star : m);
   COVER(av); COVER(m != 0 && m == SLOT(4) && !NULL_VALUED(m)); COVER(m == 0 && star == SLOT(4)); COVER(m != 0 && NULL_VALUED(m) && star != 0 && !NULL_VALUED(star)); COVER(m == 0 && star == 0 && g_members == 2);
@@ -509,7 +509,7 @@ struct JsonString StringBuffer__str(struct StringBuffer *self) {
   return r;
 }
 /* filter[key]: F3 and F6 (!allowObject => the member filter does not allow) */
-Filter DeserializationOption__Filter__op_index_char_p(Filter *self, char **key) {
+Filter DeserializationOption__Filter__op_index_constchar_p(Filter *self, char **key) {
   CHECK(tok(self) == 1 && g_stage == 1, "the member filter is selected from the object's filter, once per member");
   CHECK(*key == g_keybuf, "C11: the member filter is selected with the key just read");
   g_index_calls++;
